@@ -525,7 +525,7 @@ func ruleTK4(c *Ctx) *rule {
 		switch {
 		case len(residual) > 0:
 			r.bad(key, c.ipos(app), "a command is only recorded when "+strings.Join(residual, " && ")+": the others are silently left out of the task")
-		case !res.hasField("ast.Command.Command"):
+		case !res.hasField("ast.Command.Command") && !res.hasCall("(github.com/FollowTheProcess/spok/ast.Command).Literal"):
 			r.bad(key, c.ipos(app), "what is appended does not derive from the text of the command at hand")
 		default:
 			r.ok(key, c.ipos(app), "one append per command, of a value derived from that command's text")
